@@ -9,7 +9,9 @@ package main
 import (
 	"encoding/json"
 	"fmt"
+	"reflect"
 
+	"github.com/synnaxlabs/cesium"
 	"github.com/synnaxlabs/cesium/verifh/cesh"
 	"github.com/synnaxlabs/x/telem"
 )
@@ -36,6 +38,9 @@ type out struct {
 	End  int64      `json:"end"`
 	Read []chanRead `json:"read,omitempty"`
 	Msg  string     `json:"msg,omitempty"`
+	// Late: the same frame (kept by reference) decoded again at the end of the case; only
+	// set when it differs from Read.
+	Late []chanRead `json:"late,omitempty"`
 }
 
 type result struct {
@@ -47,14 +52,17 @@ type result struct {
 	Fatal  string  `json:"fatal,omitempty"`
 }
 
-func doRead(env *cesh.Env, o op) out {
-	fr, err := env.DB.Read(env.Ctx, telem.TimeRange{Start: telem.TimeStamp(o.TR[0]), End: telem.TimeStamp(o.TR[1])}, o.Keys...)
-	r := out{Err: cesh.ErrClass(err), Read: []chanRead{}}
-	if err != nil {
-		r.Msg = err.Error()
-		return r
-	}
-	for _, k := range o.Keys {
+// held is a frame returned by DB.Read that the caller keeps.
+type held struct {
+	keys []uint32
+	fr   cesium.Frame
+	dst  *[]out
+	at   int
+}
+
+func decodeFrame(env *cesh.Env, keys []uint32, fr cesium.Frame) []chanRead {
+	rd := []chanRead{}
+	for _, k := range keys {
 		cr := chanRead{K: k, Ser: []cesh.Ser{}}
 		ch, ok := env.Chans[k]
 		if ok {
@@ -64,9 +72,22 @@ func doRead(env *cesh.Env, o op) out {
 				}
 			}
 		}
-		r.Read = append(r.Read, cr)
+		rd = append(rd, cr)
 	}
-	return r
+	return rd
+}
+
+func doRead(env *cesh.Env, o op, kept *[]held, dst *[]out) {
+	fr, err := env.DB.Read(env.Ctx, telem.TimeRange{Start: telem.TimeStamp(o.TR[0]), End: telem.TimeStamp(o.TR[1])}, o.Keys...)
+	r := out{Err: cesh.ErrClass(err), Read: []chanRead{}}
+	if err != nil {
+		r.Msg = err.Error()
+		*dst = append(*dst, r)
+		return
+	}
+	r.Read = decodeFrame(env, o.Keys, fr)
+	*kept = append(*kept, held{keys: o.Keys, fr: fr, dst: dst, at: len(*dst)})
+	*dst = append(*dst, r)
 }
 
 func runCase(c tcase) (res result) {
@@ -84,9 +105,19 @@ func runCase(c tcase) (res result) {
 		return
 	}
 	defer env.Close()
+	kept := []held{}
+	// the frames of all reads are kept and looked at again when the case is over
+	defer func() {
+		for _, h := range kept {
+			late := decodeFrame(env, h.keys, h.fr)
+			if !reflect.DeepEqual(late, (*h.dst)[h.at].Read) {
+				(*h.dst)[h.at].Late = late
+			}
+		}
+	}()
 	for _, o := range c.Ops {
 		if o.Op == "read" {
-			res.Outs = append(res.Outs, doRead(env, o))
+			doRead(env, o, &kept, &res.Outs)
 			continue
 		}
 		r := env.Step(o.SOp)
@@ -97,14 +128,14 @@ func runCase(c tcase) (res result) {
 		env.W = nil
 	}
 	for _, o := range c.Final {
-		res.FinalA = append(res.FinalA, doRead(env, o))
+		doRead(env, o, &kept, &res.FinalA)
 	}
 	if r := env.Step(cesh.SOp{Op: "reopen"}); r.Err != 0 {
 		res.Fatal = "reopen failed: " + r.Msg
 		return
 	}
 	for _, o := range c.Final {
-		res.FinalB = append(res.FinalB, doRead(env, o))
+		doRead(env, o, &kept, &res.FinalB)
 	}
 	return
 }
